@@ -48,6 +48,19 @@ ASSUME LRankBySplit(<<7, 6, 5, 4, 3, 2, 0, 1>>) = Cardinality(LAllPerms(8)) - 2
 ASSUME \A p \in {<<8, 0, 7, 1, 6, 2, 5, 3, 4>>, <<0, 9, 8, 7, 6, 5, 4, 3, 2, 1>>, <<3, 1, 4, 0, 5, 9, 2, 6, 8, 7>>} :
           LRankBySplit(ClassicalNext(p)) = LRankBySplit(p) + 1
 
+\* ---- ranks as base-10000 numerals (used by Trace_C09 for lengths 13 and more) --------------
+ASSUME \A p \in PPermsUpTo(6) : /\ LBigIsNumeral(LBigRankBySplit(p)) /\ LBigValue(LBigRankBySplit(p)) = LRankBySplit(p)
+                                /\ LBigIsNumeral(LBigOverallRank(p)) /\ LBigValue(LBigOverallRank(p)) = LOverallRankBySplit(p)
+ASSUME \A n \in 0..12 : LBigValue(LBigFact(n)) = PFact(n) /\ LBigValue(LBigSumFact(n)) = PSumFact(n)
+ASSUME \A p \in {<<8, 0, 7, 1, 6, 2, 5, 3, 4>>, <<0, 9, 8, 7, 6, 5, 4, 3, 2, 1>>, <<10, 0, 9, 1, 8, 2, 7, 3, 6, 4, 5>>,
+                 <<11, 10, 9, 8, 7, 6, 5, 4, 3, 2, 1, 0>>} :
+          LBigValue(LBigOverallRank(p)) = LOverallRankBySplit(p)
+\* 20! = 2432902008176640000 and 25! - 1 as numerals; the decreasing permutation is the last of its length
+ASSUME LBigFact(20) = <<0, 7664, 81, 2902, 243>>
+ASSUME \A n \in {13, 20, 25, 30} : LBigAdd(LBigRankBySplit(PDecreasing(n)), <<1>>, 0) = LBigFact(n)
+                                    /\ LBigRankBySplit(PIdentity(n)) = <<>>
+ASSUME \A x \in {<<>>, <<9999>>, <<9999, 9999>>, <<1, 2, 3>>} : LBigValue(LBigAdd(x, <<1>>, 0)) = LBigValue(x) + 1
+
 \* ---- the sorted enumeration: strictly increasing, complete, index = rank -----------
 ASSUME \A n \in 0..5 : LET s == LSorted(T[n]) IN
           /\ Len(s) = Cardinality(T[n]) /\ {s[i] : i \in DOMAIN s} = T[n]
